@@ -300,8 +300,11 @@ func (keys_and_cert *KeysAndCert) SigningPublicKey() (types.SigningPublicKey, er
 	return keys_and_cert.SigningPublic, nil
 }
 
-// Certificate returns the certificate.
+// Certificate returns the certificate, or nil if the KeysAndCert is not initialized.
 func (keys_and_cert *KeysAndCert) Certificate() *certificate.Certificate {
+	if keys_and_cert == nil || keys_and_cert.KeyCertificate == nil {
+		return nil
+	}
 	return &keys_and_cert.KeyCertificate.Certificate
 }
 
